@@ -5,6 +5,7 @@ S=/var/tmp/drv2seed
 rm -rf $S; mkdir -p $S
 rsync -a --exclude .git /repo/ $S/
 (cd $S && patch -p1 < /verif/seeded/$1/patch.diff >/dev/null)
+if [ -n "$NOVIEW" ]; then NOVIEW=1 SKIP_ADDRANGE=$SKIP_ADDRANGE python3 /verif/agent_notes/drv2_gen/gen.py $S/zz_bitmapdrv2_verif.go; fi
 K=$2; shift 2
 cd /verif && ./bin/rvc verify -repo $S -x -f "$K" "$@" 2>&1
 rm -rf $S
